@@ -84,8 +84,13 @@ func (s Range) append(nums []uint32) (out []uint32, ok bool) {
 	if s.Start == 0 || s.Stop == 0 {
 		return nil, false
 	}
-	for n := s.Start; n <= s.Stop; n++ {
+	// Note: "n <= s.Stop" can't be the loop condition, it's always true when
+	// s.Stop is the maximum uint32 value
+	for n := s.Start; ; n++ {
 		nums = append(nums, n)
+		if n == s.Stop {
+			break
+		}
 	}
 	return nums, true
 }
